@@ -184,12 +184,13 @@ Syn(nb) == LET c == AP!Parse(nb, TRUE).cls IN
 
 \* ---- reads ----------------------------------------------------------------------
 \* accessors: "gen" xcm_attr_get, "gen0" the same with type = NULL, "fgen" xcm_attr_getf,
-\* "bool" "int64" "double" "str" "bin" the typed getters, "fstr" "fbin" xcm_attr_getf_str / _bin
-Accessors == {"gen", "gen0", "fgen", "bool", "int64", "double", "str", "bin", "fstr", "fbin"}
-AccType(a) == CASE a = "bool" -> TBool [] a = "int64" -> TInt [] a = "double" -> TDouble
+\* "bool" "int64" "double" "str" "bin" the typed getters, "fstr" "fbin" xcm_attr_getf_str / _bin,
+\* "fbool" "fint64" "fdouble" xcm_attr_getf_bool / _int64 / _double
+Accessors == {"gen", "gen0", "fgen", "bool", "int64", "double", "str", "bin", "fstr", "fbin", "fbool", "fint64", "fdouble"}
+AccType(a) == CASE a \in {"bool", "fbool"} -> TBool [] a \in {"int64", "fint64"} -> TInt [] a \in {"double", "fdouble"} -> TDouble
                 [] a \in {"str", "fstr"} -> TStr [] a \in {"bin", "fbin"} -> TBin [] OTHER -> 0
 \* the typed getters of the fixed-size types supply the buffer themselves
-AccCap(a) == CASE a = "bool" -> 1 [] a \in {"int64", "double"} -> 8 [] OTHER -> -1
+AccCap(a) == CASE a \in {"bool", "fbool"} -> 1 [] a \in {"int64", "double", "fint64", "fdouble"} -> 8 [] OTHER -> -1
 CapClasses == {"0", "1", "sz-1", "sz", "sz+1", "8", "4096"}
 CapOf(cc, n) == CASE cc = "0" -> 0 [] cc = "1" -> 1 [] cc = "8" -> 8 [] cc = "4096" -> 4096
                   [] cc = "sz-1" -> (IF n > 0 THEN n - 1 ELSE 0) [] cc = "sz" -> n [] cc = "sz+1" -> n + 1
